@@ -133,6 +133,8 @@ def run_walk(rng, name, cfg, objs, focus, n_agents, n_steps, perturb, resets, se
         exfiltrated = {}     # node -> data put there by exfiltration in this episode (C11_exists)
         probe = None
         forced = []          # scripted (agent, action generator) pairs, consumed before random generation
+        scans_after_block = []
+        blocked_in_episode = False
         for stepno in range(n_steps):
             # ---- reset?
             if resets and stepno > 0 and stepno % resets == 0:
@@ -155,6 +157,13 @@ def run_walk(rng, name, cfg, objs, focus, n_agents, n_steps, perturb, resets, se
                     views[ag] = gs
                     ep_first[ag] = WL.impl_view(gs)
                     told[ag] = copy.deepcopy(WL.impl_view(gs))
+                # the scans of the finished episode that came after a block are played again first thing in the new episode: the
+                # blocks are lifted, so a result remembered from the old episode would show here
+                forced[:0] = [(ag_, (lambda T_, v_, a_=a_: dict(a_, _after_reset=True))) for ag_, a_ in scans_after_block[-6:]]
+                for _x in scans_after_block[-6:]:
+                    wk.count("scans_replayed_after_reset")
+                scans_after_block = []
+                blocked_in_episode = False
             ag = rng.randrange(n_agents)
             T = WL.impl_tables(g)
             forced_fn = None
@@ -177,8 +186,8 @@ def run_walk(rng, name, cfg, objs, focus, n_agents, n_steps, perturb, resets, se
                                        (A, lambda T_, v_, X=X: {"type": "FindData", "src": X, "tgt": X} if rng.random() < 0.5 else
                                                                {"type": "ScanNetwork", "src": X, "net": rng.choice(sorted(T_["nets"]))} if T_["nets"] else None)])
                         wk.count("scripted_interactions")
-                if forced:
-                    ag, forced_fn = forced.pop(0)
+            if forced:
+                ag, forced_fn = forced.pop(0)
             v_live = WL.impl_view(views[ag])
             v = told[ag]
             if v_live != v:
@@ -200,6 +209,7 @@ def run_walk(rng, name, cfg, objs, focus, n_agents, n_steps, perturb, resets, se
             a = forced_fn(T, v) if forced_fn is not None else None
             if a is None:
               a = WR.gen_action(rng, T, v, types=(["FindData"] * 4 + ["ExfiltrateData"] * 4 + ["BlockIP"] * 2 + ["ScanNetwork", "FindServices", "ExploitService"]) if shared else None)
+            after_reset = bool(a.pop("_after_reset", False))
             act = WL.to_action(a)
             pre = WL.ref_pre(Wref, v, a)
             before_objs = [(i, copy.deepcopy(o)) for i, o in enumerate(views)]
@@ -210,12 +220,23 @@ def run_walk(rng, name, cfg, objs, focus, n_agents, n_steps, perturb, resets, se
                                 {"kind": "walk", "scenario": name, "history": list(history) + [{"op": "step", "agent": ag, "action": describe(a, WL)}]}))
                 return wk
             history.append({"op": "step", "agent": ag, "action": describe(a, WL)})
+            if a["type"] == "BlockIP" and pre:
+                blocked_in_episode = True
+                wk.count("effective_blocks")
+                # ... and look at the blocked pair right away, from both ends
+                if len(forced) < 4:
+                    for s_, o_ in ((a["tgt"], a["blocked"]), (a["blocked"], a["tgt"])):
+                        nets_o = [n_ for n_, members in T["nets"].items() if o_ in members]
+                        if nets_o:
+                            forced.append((ag, lambda T_, v_, s_=s_, n_=nets_o[0]: {"type": "ScanNetwork", "src": s_, "net": n_}))
+            if a["type"] == "ScanNetwork" and blocked_in_episode:
+                scans_after_block.append((ag, dict(a)))
             v2 = WL.impl_view(new_gs)
             T2 = WL.impl_tables(g)
             Wexp, vexp = WL.ref_step(Wref, v, a)
             changed = not WR.same_view(v, v2) or not WR.same_world(T, T2)
             wk.count(f"{a['type']}:{'pre' if pre else 'nopre'}:{'changed' if changed else 'same'}")
-            tag = "pre" if pre else "nopre"
+            tag = "reset" if after_reset else ("pre" if pre else "nopre")
             mut = a["type"] in ("ExfiltrateData", "BlockIP")
             wk.ops.append((f"OStep {ag} {WL.action_term(a, I)} {WL.view_term(v2, I)} " +
                            (f"(Some {WL.world_term(T2, I)})" if (mut or stepno % 7 == 0) else "None"), tag, json.dumps(describe(a, WL))))
@@ -223,6 +244,9 @@ def run_walk(rng, name, cfg, objs, focus, n_agents, n_steps, perturb, resets, se
                 prop = "C03" if pre else "C02"
                 what = ("an action whose preconditions do not hold changed the view or the world" if not pre else
                         "an action whose preconditions hold did not have exactly its documented effect")
+                if after_reset:
+                    wk.hits.append(("C08", f"{a['type']} after the reset", "an action of the finished episode, played again right after the reset, does not give the observation the pristine world gives (something of the old episode survived the reset)",
+                                    {"kind": "walk", "scenario": name, "history": list(history), "expected_view": WR.canon(vexp), "actual_view": WR.canon(v2)}))
                 wk.hits.append((prop, f"{a['type']} {'effect without precondition' if not pre else 'wrong effect'}", what,
                                 {"kind": "walk", "scenario": name, "history": list(history),
                                  "expected_view": WR.canon(vexp), "actual_view": WR.canon(v2),
